@@ -53,6 +53,10 @@ pub struct DCase {
     pub polling: u8,
     /// consumer instances: how many messages each yields before it is dropped (the last drains)
     pub stops: Vec<u8>,
+    /// consume as the (only) member of a consumer group - all partitions of t1, no partition id - instead of
+    /// as a standalone consumer of one partition
+    #[serde(default)]
+    pub group: bool,
 }
 
 fn commit_of(c: u8) -> (AutoCommit, bool, &'static str) {
@@ -113,8 +117,9 @@ impl Engine for SdkClients {
             proptest::collection::vec(call, 1..=maxc),
             (0u8..3, 1u8..50, 0u8..14, 0u8..3),
             proptest::collection::vec(0u8..40, 0..3),
+            prop_oneof![2 => Just(false), 1 => Just(true)],
         )
-            .prop_map(|((partitions, batch_size, interval_ms, partitioning), calls, (c_part, c_batch, commit, polling), stops)| DCase {
+            .prop_map(|((partitions, batch_size, interval_ms, partitioning), calls, (c_part, c_batch, commit, polling), stops, group)| DCase {
                 partitions,
                 batch_size,
                 interval_ms,
@@ -125,6 +130,7 @@ impl Engine for SdkClients {
                 commit,
                 polling,
                 stops,
+                group,
             })
             .boxed()
     }
@@ -154,7 +160,7 @@ impl Engine for SdkClients {
         }
     }
     fn rule(&self, _p: &Params) -> String {
-        "case = producer settings (batch size none/1/3/100, send interval none/1 ms, partitioning balanced / partition id / key) + a generated list of calls (send n, send_one, send_with_partitioning(explicit partition), send_to(another topic)) + consumer settings (partition, batch size 1..49, one of 14 auto-commit modes (Disabled, When x4, After x3, Interval 1 h / 20 ms, IntervalOrWhen(1 h, ..) x4), polling next / offset(0) / first) + a list of stop points at which the consumer is dropped and re-created with the same identity; oracle: server-side full reads show every produced message exactly once in exactly the addressed stream/topic(/partition); each consumer instance yields strictly increasing offsets without holes from its start; all instances together yield every message of the partition; the server-side committed offset never exceeds what was fetched and, in the commit-on-consumption modes, what was yielded; with 'next' polling a re-created consumer starts right after the committed offset; non-trivial = >=1 send_to or explicit-partition call, or >=1 consumer re-creation after >=1 yielded message".into()
+        "case = producer settings (batch size none/1/3/100, send interval none/1 ms, partitioning balanced / partition id / key) + a generated list of calls (send n, send_one, send_with_partitioning(explicit partition), send_to(another topic)) + consumer settings (partition, batch size 1..49, one of 14 auto-commit modes (Disabled, When x4, After x3, Interval 1 h / 20 ms, IntervalOrWhen(1 h, ..) x4), polling next / offset(0) / first) + a list of stop points at which the consumer is dropped and re-created with the same identity; in a third of the cases the consumer is instead the only member of a consumer group over all partitions of the topic (no partition id; per-partition order, resume, commit bounds, completeness); oracle: server-side full reads show every produced message exactly once in exactly the addressed stream/topic(/partition); each consumer instance yields strictly increasing offsets without holes from its start; all instances together yield every message of the partition; the server-side committed offset never exceeds what was fetched and, in the commit-on-consumption modes, what was yielded; with 'next' polling a re-created consumer starts right after the committed offset; non-trivial = >=1 send_to or explicit-partition call, or >=1 consumer re-creation after >=1 yielded message".into()
     }
     fn assumptions(&self, _p: &Params) -> Vec<String> {
         vec![
@@ -307,6 +313,9 @@ async fn drive(case: &DCase, p: &Params, addr: &str, node: &Node, admin: &iggy::
                 return Err(fail("message-in-wrong-partition", format!("message {s} was addressed to partition {p} of topic t{topic} but is stored in partition {fp}")));
             }
         }
+    }
+    if case.group {
+        return group_phase(case, p, addr, admin, &client, &t1, out).await;
     }
     // ---------------- consumer (single consumer on one partition of t1)
     let pid = 1 + (case.c_part as u32 % case.partitions);
@@ -472,5 +481,185 @@ async fn drive(case: &DCase, p: &Params, addr: &str, node: &Node, admin: &iggy::
             "mode {mode_name}, polling {}: after the last instance drained, offsets {:?} of partition {pid} were never yielded ({} stored)", case.polling % 3, &missing[..missing.len().min(10)], log.len())).tag(format!("mode:{mode_name}")));
     }
     let _ = client.shutdown().await;
+    Ok(())
+}
+
+/// C20, group member: one IggyConsumer at a time consumes t1 as the only member of a consumer group
+/// (`next` polling, no partition id: the server serves its partitions in turn); instances are dropped and
+/// re-created with the same group name. Per partition: content, order without holes within an instance,
+/// resume right after the group's committed offset, commit bounds, everything yielded in the end.
+async fn group_phase(case: &DCase, p: &Params, addr: &str, admin: &iggy::tcp::client::TcpClient, client: &IggyClient, t1: &[Vec<Vec<u8>>], out: &mut Outcome) -> Check {
+    use iggy::client::{ConsumerGroupClient, ConsumerOffsetClient};
+    let fail = |c: &str, d: String| Failure::new("C20", c, d).tag("group-member");
+    out.label("group-member-consumer");
+    let (mut mode, mut on_consumption, mut mode_name) = commit_of(case.commit);
+    if never_commits(&mode) {
+        // a group member that never commits re-reads the same batch by design: use commit-on-each-message instead
+        (mode, on_consumption, mode_name) = commit_of(3);
+    }
+    let name = "grp-a";
+    let gcons = Consumer::group(Identifier::named(name).unwrap());
+    let s1 = Identifier::numeric(1).unwrap();
+    let t1id = Identifier::numeric(1).unwrap();
+    let nparts = case.partitions;
+    let mut yielded_all: Vec<BTreeSet<u64>> = vec![BTreeSet::new(); nparts as usize];
+    let mut max_yielded: Vec<Option<u64>> = vec![None; nparts as usize];
+    let mut instances = case.stops.clone();
+    instances.push(255);
+    let total: usize = t1.iter().map(|l| l.len()).sum();
+    for (k, stop) in instances.iter().enumerate() {
+        // the group's committed offsets per partition (stable reads, see the standalone phase)
+        let mut committed: Vec<Option<u64>> = vec![];
+        for pid in 1..=nparts {
+            let mut c = admin.get_consumer_offset(&gcons, &s1, &t1id, Some(pid)).await.ok().flatten().map(|o| o.stored_offset);
+            if k > 0 {
+                let until = std::time::Instant::now() + Duration::from_secs(3);
+                loop {
+                    tokio::time::sleep(Duration::from_millis(60)).await;
+                    let again = admin.get_consumer_offset(&gcons, &s1, &t1id, Some(pid)).await.ok().flatten().map(|o| o.stored_offset);
+                    if again == c || std::time::Instant::now() > until {
+                        c = again;
+                        break;
+                    }
+                    c = again;
+                }
+            }
+            committed.push(c);
+        }
+        let own = if p.masked("KF-C20-1") {
+            out.exclude("KF-C20-1");
+            Some(sdk_client(addr).await.map_err(|e| fail("cannot-connect", e.to_string()))?)
+        } else {
+            None
+        };
+        let cclient = own.as_ref().unwrap_or(client);
+        let mut c_batch = case.c_batch.max(1) as u32;
+        let nth = match mode {
+            AutoCommit::When(AutoCommitWhen::ConsumingEveryNthMessage(n)) | AutoCommit::IntervalOrWhen(_, AutoCommitWhen::ConsumingEveryNthMessage(n)) => n,
+            _ => 0,
+        };
+        if nth > c_batch && p.masked("KF-C20-2") {
+            out.exclude("KF-C20-2");
+            c_batch = nth;
+        }
+        let cb = cclient
+            .consumer_group(name, "s1", "t1")
+            .map_err(|e| fail("consumer-build", e.to_string()))?
+            .create_consumer_group_if_not_exists()
+            .auto_join_consumer_group()
+            .polling_strategy(PollingStrategy::next())
+            .batch_size(c_batch)
+            .auto_commit(mode)
+            .without_poll_interval()
+            .polling_retry_interval(IggyDuration::from(50_000u64));
+        let mut consumer = cb.build();
+        consumer.init().await.map_err(|e| fail("consumer-init", format!("group instance {k}: {e}")).tag(if k > 0 { "recreated" } else { "first" }))?;
+        let mut mine: Vec<Vec<u64>> = vec![vec![]; nparts as usize];
+        let mut count = 0usize;
+        let limit = if *stop == 255 { usize::MAX } else { *stop as usize };
+        let mut idle_windows = 0;
+        while count < limit {
+            let next = tokio::time::timeout(Duration::from_millis(300), consumer.next()).await;
+            match next {
+                Err(_) => {
+                    let reached_end = (0..nparts as usize).all(|i| {
+                        let owed_from = committed[i].map(|c| c + 1).unwrap_or(0) as usize;
+                        owed_from >= t1[i].len() || mine[i].last().map(|l| *l as usize + 1 >= t1[i].len()).unwrap_or(false)
+                    });
+                    idle_windows += 1;
+                    if reached_end || idle_windows >= 20 {
+                        break;
+                    }
+                    continue;
+                }
+                Ok(None) => break,
+                Ok(Some(Err(e))) => return Err(fail("consumer-error", format!("group instance {k}: {e}"))),
+                Ok(Some(Ok(rm))) => {
+                    let (pid, o) = (rm.partition_id, rm.message.offset);
+                    if pid == 0 || pid > nparts {
+                        return Err(fail("consumer-foreign-partition", format!("the group member was handed a message of partition {pid}; t1 has {nparts}")));
+                    }
+                    let i = (pid - 1) as usize;
+                    if t1[i].get(o as usize).map(|p| p.as_slice()) != Some(rm.message.payload.as_ref()) {
+                        return Err(fail("consumer-content", format!("group instance {k}: partition {pid} offset {o} has content that differs from the partition's log")));
+                    }
+                    if let Some(l) = mine[i].last() {
+                        if o != *l + 1 {
+                            return Err(fail("consumer-order", format!("group instance {k} ({mode_name}, batch {c_batch}): partition {pid} yielded offset {o} after {l} (a repeat, a hole or out of order)")).tag(format!("mode:{mode_name}")));
+                        }
+                    }
+                    mine[i].push(o);
+                    count += 1;
+                    idle_windows = 0;
+                }
+            }
+        }
+        drop(consumer);
+        // the member leaves with its connection; wait until the server has noticed, so that the next instance is alone again
+        if let Some(o) = own {
+            let _ = o.shutdown().await;
+            drop(o);
+            let until = std::time::Instant::now() + Duration::from_secs(10);
+            loop {
+                let members = admin.get_consumer_group(&s1, &t1id, &Identifier::named(name).unwrap()).await.ok().flatten().map(|g| g.members_count).unwrap_or(0);
+                if members == 0 || std::time::Instant::now() > until {
+                    break;
+                }
+                tokio::time::sleep(Duration::from_millis(20)).await;
+            }
+        }
+        tokio::time::sleep(Duration::from_millis(120)).await;
+        for i in 0..nparts as usize {
+            let pid = i as u32 + 1;
+            // resume: right after the group's committed offset of that partition
+            if let Some(first) = mine[i].first() {
+                let expect = committed[i].map(|c| c + 1).unwrap_or(0);
+                if *first != expect {
+                    return Err(fail("consumer-resume", format!(
+                        "group instance {k} ({mode_name}): partition {pid}: the group's committed offset was {:?} when the member was (re-)created, the first yielded offset is {first} (expected {expect})", committed[i])).tag(format!("mode:{mode_name}")));
+                }
+            }
+            for o in &mine[i] {
+                yielded_all[i].insert(*o);
+            }
+            if let Some(l) = mine[i].last() {
+                max_yielded[i] = Some(max_yielded[i].map(|m| m.max(*l)).unwrap_or(*l));
+            }
+            let now_committed = admin.get_consumer_offset(&gcons, &s1, &t1id, Some(pid)).await.ok().flatten().map(|o| o.stored_offset);
+            if let Some(c) = now_committed {
+                if c as usize >= t1[i].len() && !t1[i].is_empty() {
+                    return Err(fail("committed-beyond-fetched", format!("partition {pid}: group offset {c} but the partition holds offsets 0..{}", t1[i].len() - 1)));
+                }
+                if on_consumption {
+                    match max_yielded[i] {
+                        Some(m) if c <= m => {}
+                        other => {
+                            return Err(fail("committed-beyond-yielded", format!(
+                                "mode {mode_name}: partition {pid}: group offset {c} but the highest offset yielded so far is {:?}", other)).tag(format!("mode:{mode_name}")))
+                        }
+                    }
+                }
+            }
+        }
+        if k > 0 && count > 0 {
+            out.label("group-member-recreated");
+            out.nontrivial = true;
+        }
+    }
+    let at_most_once = commits_when_polling(&mode) && !case.stops.is_empty();
+    if at_most_once {
+        out.label("static-polling-by-design");
+    } else {
+        for i in 0..nparts as usize {
+            let missing: Vec<u64> = (0..t1[i].len() as u64).filter(|o| !yielded_all[i].contains(o)).collect();
+            if !missing.is_empty() {
+                return Err(fail("consumer-missed-messages", format!(
+                    "group member, mode {mode_name}: after the last instance drained, offsets {:?} of partition {} were never yielded ({} stored there, {total} in the topic)", &missing[..missing.len().min(10)], i + 1, t1[i].len())).tag(format!("mode:{mode_name}")));
+            }
+        }
+    }
+    if nparts > 1 && total > 0 {
+        out.label("group-member-over-several-partitions");
+    }
     Ok(())
 }
